@@ -460,4 +460,166 @@ Definition I_to_uint (w N : Z) (fuel : nat) (pb : Z) (ps : bool) (self : list Z)
     Done t1'
   ).
 
+(* src/bint/convert.rs: macro from_int!, fn from *)
+Definition bint_from_int (w N : Z) (fuel : nat) (pb : Z) (int : Z) : res (list Z) :=
+  let out := (if (int <? 0) then (Core.bitnot w (ZERO (Z.to_nat N))) else (ZERO (Z.to_nat N))) in
+  let i := 0 in
+  t2' <- while_loop (R := list Z) fuel
+    (fun '(out, i) => ((ix_shl i (digit_BIT_SHIFT w)) <? pb))
+    (fun '(out, i) =>
+      t1' <- pshr pb int (ix_shl i (digit_BIT_SHIFT w)) ;;
+      let d := (ud w t1') in
+      out <- arr_set out i d ;;
+      let i := (i + 1) in
+      Done (Continue (out, i)))
+    (out, i) ;;
+  match t2' with
+  | Exited (out, i) =>
+      Done out
+  | Returned t3' => Done t3'
+  end.
+
+(* src/bint/convert.rs: macro from_uint!, fn from *)
+Definition bint_from_uint (dbg : bool) (w N : Z) (fuel : nat) (pb : Z) (int : Z) : res (list Z) :=
+  t1' <- of_outcome (Convert.U_from_uint dbg pb w (Z.to_nat N) int) ;;
+  let out := (Cast.from_bits t1') in
+  Done out.
+
+(* src/buint/convert.rs: macro try_from_iint!, fn try_from *)
+Definition try_from_iint (dbg : bool) (w N : Z) (fuel : nat) (pb : Z) (int : Z) : res (Convert.result (list Z)) :=
+  if (int <? 0) then (
+    Done Convert.Err
+  ) else (
+    let bits := (ud pb int) in
+    t1' <- of_outcome (Convert.U_from_uint dbg pb w (Z.to_nat N) bits) ;;
+    Done (Convert.Ok t1')
+  ).
+
+(* src/buint/numtraits.rs: fn from_u64 *)
+Definition U_from_u64 (w N : Z) (fuel : nat) (int : Z) : res (option (list Z)) :=
+  let pb := 64 in
+  let UINT_BITS := pb in
+  let out := (ZERO (Z.to_nat N)) in
+  let i := 0 in
+  t2' <- while_loop (R := (option (list Z))) fuel
+    (fun '(out, i) => ((ix_shl i (digit_BIT_SHIFT w)) <? UINT_BITS))
+    (fun '(out, i) =>
+      t1' <- pshr pb int (ix_shl i (digit_BIT_SHIFT w)) ;;
+      let d := (ud w t1') in
+      if (negb (d =? 0)) then (
+        if (i <? N) then (
+          out <- arr_set out i d ;;
+          let i := (i + 1) in
+          Done (Continue (out, i))
+        ) else (
+          Done (Return None)
+        )
+      ) else (
+        let i := (i + 1) in
+        Done (Continue (out, i))
+      ))
+    (out, i) ;;
+  match t2' with
+  | Exited (out, i) =>
+      Done (Some out)
+  | Returned t3' => Done t3'
+  end.
+
+(* src/buint/numtraits.rs: fn from_u128 *)
+Definition U_from_u128 (w N : Z) (fuel : nat) (int : Z) : res (option (list Z)) :=
+  let pb := 128 in
+  let UINT_BITS := pb in
+  let out := (ZERO (Z.to_nat N)) in
+  let i := 0 in
+  t2' <- while_loop (R := (option (list Z))) fuel
+    (fun '(out, i) => ((ix_shl i (digit_BIT_SHIFT w)) <? UINT_BITS))
+    (fun '(out, i) =>
+      t1' <- pshr pb int (ix_shl i (digit_BIT_SHIFT w)) ;;
+      let d := (ud w t1') in
+      if (negb (d =? 0)) then (
+        if (i <? N) then (
+          out <- arr_set out i d ;;
+          let i := (i + 1) in
+          Done (Continue (out, i))
+        ) else (
+          Done (Return None)
+        )
+      ) else (
+        let i := (i + 1) in
+        Done (Continue (out, i))
+      ))
+    (out, i) ;;
+  match t2' with
+  | Exited (out, i) =>
+      Done (Some out)
+  | Returned t3' => Done t3'
+  end.
+
+(* src/bint/numtraits.rs: macro from_uint!, fn $name *)
+Definition I_from_uint (w N : Z) (fuel : nat) (pb : Z) (n : Z) : res (option (list Z)) :=
+  let UINT_BITS := pb in
+  let out := (ZERO (Z.to_nat N)) in
+  let i := 0 in
+  t2' <- while_loop (R := (option (list Z))) fuel
+    (fun '(out, i) => ((ix_shl i (digit_BIT_SHIFT w)) <? UINT_BITS))
+    (fun '(out, i) =>
+      t1' <- pshr pb n (ix_shl i (digit_BIT_SHIFT w)) ;;
+      let d := (ud w t1') in
+      if (negb (d =? 0)) then (
+        if (i <? N) then (
+          out <- arr_set out i d ;;
+          let i := (i + 1) in
+          Done (Continue (out, i))
+        ) else (
+          Done (Return None)
+        )
+      ) else (
+        let i := (i + 1) in
+        Done (Continue (out, i))
+      ))
+    (out, i) ;;
+  match t2' with
+  | Exited (out, i) =>
+      if (Core.is_negative w out) then (
+        Done None
+      ) else (
+        Done (Some out)
+      )
+  | Returned t3' => Done t3'
+  end.
+
+(* src/bint/numtraits.rs: macro from_int!, fn $name *)
+Definition I_from_int (w N : Z) (fuel : nat) (pb : Z) (n : Z) : res (option (list Z)) :=
+  let INT_BITS := pb in
+  let initial_digit := (if (n <? 0) then (u_max w) else 0) in
+  let out := (Cast.from_bits (Convert.from_digits (repeat initial_digit (Z.to_nat N)))) in
+  let i := 0 in
+  t2' <- while_loop (R := (option (list Z))) fuel
+    (fun '(out, i) => ((ix_shl i (digit_BIT_SHIFT w)) <? INT_BITS))
+    (fun '(out, i) =>
+      t1' <- pshr pb n (ix_shl i (digit_BIT_SHIFT w)) ;;
+      let d := (ud w t1') in
+      if (negb (d =? initial_digit)) then (
+        if (i <? N) then (
+          out <- arr_set out i d ;;
+          let i := (i + 1) in
+          Done (Continue (out, i))
+        ) else (
+          Done (Return None)
+        )
+      ) else (
+        let i := (i + 1) in
+        Done (Continue (out, i))
+      ))
+    (out, i) ;;
+  match t2' with
+  | Exited (out, i) =>
+      if (xorb (n <? 0) (Core.is_negative w out)) then (
+        Done None
+      ) else (
+        Done (Some out)
+      )
+  | Returned t3' => Done t3'
+  end.
+
 End ConvGen.
